@@ -206,8 +206,9 @@ impl Scenario for Discover {
              the same records; non-trivial = at least one fault hit a file the walk selects; distinct = spec hash x fault list x schedule"
         } else {
             "generated tree (file names near the patterns, ignored / near-ignored directory names at any depth, valid and invalid exclude globs \
-             in pyproject.toml, optional venv inside the root) materialised at 3 absolute locations: neutral, under ancestors named like ignored \
-             directories (build, env, target, x.egg-info, .venv), under an ancestor containing 'site-packages'; indexed file set compared with the \
+             in pyproject.toml, optional venv inside the root) materialised at 3-6 absolute locations: neutral, under ancestors named like ignored \
+             directories (build, env, target, x.egg-info, .venv), under an ancestor containing 'site-packages', the root itself named like \
+             an ignored directory, the root reached through a symbolic link; mistyped neighbour settings next to the exclude list; indexed file set compared with the \
              discovery model relative to the root and relative snapshots (incl. third-party flags) compared across locations; non-trivial = the \
              tree has an ignored directory or an exclude hit below the root; distinct = spec hash x locations"
         }
